@@ -264,8 +264,29 @@ class World:
             self.reads_after_rollover += 1
         return recs
 
-    def read(self, r, block):
-        data = r.log.read_block() if block else r.log.read()
+    def read(self, r, block, racing=None):
+        """racing = [size, ...]: the writer (another process in real life) writes these records while this read() call is between
+        finding the end of its current file and re-scanning the directory - the only point inside read() where it looks at the disk twice."""
+        if racing and r.kind != 'shared' and self.writer.write_file is not False:
+            log = r.log
+            real = log.refresh_logfiles
+            fired = []
+
+            def racing_refresh(*a, **kw):
+                if not fired:
+                    fired.append(1)
+                    log.refresh_logfiles = real
+                    self.classes.add('writer appended while a read() was between end-of-file and re-scan')
+                    for size in racing:
+                        self.write(size, '+ms', False)
+                return real(*a, **kw)
+            log.refresh_logfiles = racing_refresh
+            try:
+                data = log.read_block() if block else log.read()
+            finally:
+                log.refresh_logfiles = real
+        else:
+            data = r.log.read_block() if block else r.log.read()
         return self.deliver(r, data, block or self.mode == 'bin')
 
     def seek(self, r, where):
